@@ -241,7 +241,7 @@ pub struct St {
     dead: bool,
 }
 
-type Key = (u8, u8, usize, usize, (usize, usize, usize, usize, bool), usize, bool);
+type Key = (u8, u8, usize, usize, (usize, usize, usize, usize, bool), usize, bool, usize);
 
 fn opj(op: &Op) -> Value {
     json!(format!("{:?}", op))
@@ -263,6 +263,7 @@ fn execute(stream_id: u8, chunk_id: u8, hist: &[Op]) -> Outcome {
     let src_ptr: *const Source = &src;
     let mut mismatch = None;
     let mut dead = false;
+    let mut errors = 0usize;
     let mut early = false;
     let mut ref_pos = 0usize;
     let vs;
@@ -274,7 +275,7 @@ fn execute(stream_id: u8, chunk_id: u8, hist: &[Op]) -> Outcome {
             let got = pan::catch(|| apply(&mut ad, *op));
             // SAFETY: read-only peek at counters of the source that the adapter borrows mutably; the
             // adapter is not executing at this point.
-            let eof_seen = unsafe { (*src_ptr).eof_returns > 0 };
+            let eof_seen = unsafe { (*src_ptr).eof_returns > (*src_ptr).stalls }; // an empty read before the end is a stall, not the end
             match got {
                 Err(p) => {
                     mismatch = Some((format!("panic in ReadAdapter::{}: {}", opname(op), p.class()), json!({"step": i, "op": opj(op), "panic": p.msg})));
@@ -317,9 +318,17 @@ fn execute(stream_id: u8, chunk_id: u8, hist: &[Op]) -> Outcome {
                         dead = true;
                         break;
                     }
+                    // a failed operation consumes nothing the in-memory reader does not consume (both report the
+                    // failure before or after the same successful partial reads), so the history goes on: what is
+                    // available afterwards must still be reported and returned
                     if want.is_err() {
-                        dead = true; // position after an error is unspecified: do not extend
-                        break;
+                        errors += 1;
+                        // composite operations (a prefix or several items are consumed before the failure, or the
+                        // in-memory reader refuses an over-long request up front) leave the position unspecified
+                        if !matches!(op, Op::ReadU8 | Op::PeekU8 | Op::ReadU16 | Op::ReadU32 | Op::ReadU64 | Op::ReadU128 | Op::Slice(_) | Op::Vec(_) | Op::Arr(_) | Op::Eor(_) | Op::HasMore) {
+                            dead = true;
+                            break;
+                        }
                     }
                 },
             }
@@ -342,7 +351,7 @@ fn execute(stream_id: u8, chunk_id: u8, hist: &[Op]) -> Outcome {
         ref_pos = data.len() - lo;
         vs = ad.verif_state();
     }
-    let key = (stream_id, chunk_id, src.pos, src.eof_returns.min(2), vs, ref_pos, dead);
+    let key = (stream_id, chunk_id, src.pos, src.eof_returns.min(2), vs, ref_pos, dead, errors.min(1));
     let _ = ref_consumed;
     Outcome { key, dead, mismatch, early }
 }
@@ -488,7 +497,7 @@ pub fn run(run: &Arc<Run>) {
                     continue;
                 }
                 out.nontrivial();
-                out.class(if o.early { "end of data reported early after the source returned an empty read (allowed; no wrong value, no panic)" } else if o.dead { "history ends in an error agreed by both readers" } else { "step agreed" });
+                out.class(if o.early { "end of data reported early after the source returned an empty read (allowed; no wrong value, no panic)" } else if o.dead { "history ends in an error of a composite operation agreed by both readers" } else if o.key.7 > 0 { "step agreed after an error agreed by both readers" } else { "step agreed" });
                 succ.push(St { stream: s.stream, chunk: s.chunk, hist: h, key: o.key, dead: o.dead });
             }
             succ
